@@ -32,7 +32,7 @@ func (c08) Assumptions() []string {
 	}
 }
 func (c08) Required(tier string) []string {
-	return []string{"strategy-typed", "strategy-generic", "strategy-skip", "strategy-skipfast", "strategy-decline", "strategy-nested", "strategy-int", "buffer-shared-reentrant", "buffer-per-depth", "direct-failed-readall-checked", "escaped-key-decoded", "nested-depth>=3", "buffers-with-history", "strings-appended-into-one-buffer"}
+	return []string{"strategy-typed", "strategy-generic", "strategy-skip", "strategy-skipfast", "strategy-decline", "strategy-nested", "strategy-int", "buffer-shared-reentrant", "buffer-per-depth", "direct-failed-readall-checked", "escaped-key-decoded", "nested-depth>=3", "buffers-with-history", "strings-appended-into-one-buffer", "strategy-generic-through-reused-reader"}
 }
 
 type skippedMarker struct{}
@@ -49,6 +49,7 @@ type composer struct {
 	scratch  []byte
 	acc      []byte // one buffer that several strings are appended to, documented ReadStringBytes use
 	maxDepth int
+	vr       *rjson.ValueReader // the decoder's long-lived reader (lives for the scenario, has a history)
 }
 
 func (c *composer) buf(depth int) *rjson.Buffer {
@@ -175,6 +176,20 @@ func (c *composer) value(data []byte, depth int, inHandler bool) (interface{}, i
 		return skippedMarker{}, p, err
 	case sGeneric:
 		c.st.probe("strategy-generic")
+		if sub%3 == 2 && c.vr != nil {
+			// generic decoding of the member through the decoder's own long-lived ValueReader
+			c.st.probe("strategy-generic-through-reused-reader")
+			switch {
+			case tt == rjson.ObjectStartType && sub%2 == 1:
+				v, p, err := c.vr.ReadObject(data)
+				return normVal(v), p, err
+			case tt == rjson.ArrayStartType && sub%2 == 1:
+				v, p, err := c.vr.ReadArray(data)
+				return normVal(v), p, err
+			}
+			v, p, err := c.vr.ReadValue(data)
+			return v, p, err
+		}
 		switch {
 		case tt == rjson.ObjectStartType && sub%2 == 1:
 			v, p, err := rjson.ReadObject(data)
@@ -370,6 +385,11 @@ func (c08) Gen(r *Rand, sc *Scenario, tier string) {
 				dd = genDoc(r, "deep")
 			case 2:
 				dd = genMutated(r, "small")
+				if r.Chance(1, 2) {
+					// a record that breaks off part-way: members already stored when the read fails
+					b := genContainerDoc(r, r.Chance(2, 3), r.Range(2, 8), 300)
+					dd = docCut(r, b, b[:len(b)*r.Range(3, 9)/10], "container-truncated")
+				}
 			default:
 				dd = docRep("container-deep-members", `[`, 1, deepDoc(r.Intn(3), []int{9999, 10001, 12000}[r.Intn(3)], "1").Bytes(), 1, `,1]`, 1)
 			}
@@ -415,6 +435,7 @@ func (c08) Exec(sc *Scenario, st *Stats) *Violation {
 	}
 	// Buffers live for the whole scenario: decoders that ask for a shared / per-depth Buffer get these
 	shared := &rjson.Buffer{}
+	vr := &rjson.ValueReader{}
 	var perDepth []*rjson.Buffer
 	shallow := bracketDepth(d.Bytes()) <= 9000 // clearly below the depth limit, whose exact position is C03's business
 	st.evi("direct", b2i(direct.OK))
@@ -433,12 +454,14 @@ func (c08) Exec(sc *Scenario, st *Stats) *Violation {
 				x := &opCtx{st: st, tape: NewTape(nil), buf: b, quiet: true}
 				runAPI(bufOps[op.A%len(bufOps)], x, pd)
 			}
+			// ... and the decoder's long-lived reader has read (or failed on) that document too
+			runAPIRaw(vrOps[op.A%len(vrOps)], &opCtx{st: st, reader: vr}, sc.Docs[op.Doc].Bytes())
 			st.probe("buffers-with-history")
 			st.evi("prior", op.A)
 			continue
 		}
 		data := d.Bytes()
-		c := &composer{tape: NewTape(op.Tape), st: st, bufMode: op.A, readAll: op.B == 1, shared: shared, perDepth: perDepth}
+		c := &composer{tape: NewTape(op.Tape), st: st, bufMode: op.A, readAll: op.B == 1, shared: shared, perDepth: perDepth, vr: vr}
 		st.evi("prog", op.A*2+op.B)
 		var val interface{}
 		var p int
